@@ -84,13 +84,16 @@ class SQLParser(Parser):
 
     @_('SET expr')
     def set(self, p):
-        return Set(arg=p.expr)
+        expr = p.expr
+        if not (isinstance(expr, BinaryOperation) and expr.op == '=' and isinstance(expr.args[0], Identifier)):
+            raise ParsingException(f'Expected "SET name = value", got "SET {expr}"')
+        return Set(name=expr.args[0], value=expr.args[1])
 
     @_('SET id identifier')
     def set(self, p):
         if not p.id.lower() == 'names':
             raise ParsingException(f'Expected "SET names", got "SET {p.id}"')
-        return Set(category=p.id.lower(), arg=p.identifier)
+        return Set(category=p.id.lower(), value=p.identifier)
 
     # Show
     @_('show WHERE expr')
